@@ -20,6 +20,7 @@ INVARIANT ActiveIsStored
 INVARIANT OnlyOwnUser
 INVARIANT ListExact
 PROPERTY Gate
+PROPERTY DropDoesNothing
 PROPERTY OnlyAuthAuthenticates
 PROPERTY Isolation
 PROPERTY PutThenGet
